@@ -121,11 +121,18 @@ fn write(
     for (style, printable) in state.extract_next(buf) {
         let fg = style.get_fg_color().and_then(cap_wincon_color);
         let bg = style.get_bg_color().and_then(cap_wincon_color);
-        let written = raw.write_colored(fg, bg, printable.as_bytes())?;
-        let possible = printable.len();
-        if possible != written {
-            // HACK: Unsupported atm
-            break;
+        // The runs are not slices of `buf`, so partial progress cannot be reported as an offset into it:
+        // keep handing over the rest of the run instead of claiming `buf` was consumed
+        let mut printable = printable.as_bytes();
+        while !printable.is_empty() {
+            let written = raw.write_colored(fg, bg, printable)?;
+            if written == 0 {
+                return Err(std::io::Error::new(
+                    std::io::ErrorKind::WriteZero,
+                    "failed to write whole buffer",
+                ));
+            }
+            printable = &printable[written..];
         }
     }
     Ok(buf.len())
